@@ -154,17 +154,33 @@ def run_engine(binary, lines, env=None, nproc=NPROC, timeout=3000, args=()):
     [t.join() for t in ths]
     res = {}
     for (o, rc), (p, ch) in zip(outs, procs):
-        seen = set()
-        for l in o.splitlines():
-            cols = l.split("\t")
-            if len(cols) >= 2:
-                res[cols[0]] = cols[1:]
-                seen.add(cols[0])
-        # a process that died (abort, SIGSEGV, alloc failure) leaves unanswered ids
-        for l in ch:
-            i = l.split(" ", 1)[0]
-            if i not in seen:
-                res[i] = ["abort(rc=%s)" % rc, "n/a"]
+        pending = ch
+        rounds = 0
+        while True:
+            seen = set()
+            for l in o.splitlines():
+                cols = l.split("\t")
+                if len(cols) >= 2:
+                    res[cols[0]] = cols[1:]
+                    seen.add(cols[0])
+            rest = [l for l in pending if l.split(" ", 1)[0] not in seen]
+            if not rest:
+                break
+            # the process died (abort, SIGSEGV, allocation failure): answers are flushed per request, so the first
+            # unanswered request is the one that killed it; the remaining ones are re-run in a fresh process
+            culprit = rest[0].split(" ", 1)[0]
+            res[culprit] = ["abort(rc=%s)" % rc, "n/a"]
+            pending = rest[1:]
+            rounds += 1
+            if not pending or rounds > 200:
+                for l in pending:
+                    res[l.split(" ", 1)[0]] = ["abort(rc=%s)" % rc, "n/a"]
+                break
+            try:
+                q = subprocess.run([binary] + list(args), input="\n".join(pending) + "\n", stdout=subprocess.PIPE, stderr=subprocess.DEVNULL, text=True, env=env or ENV, timeout=timeout)
+                o, rc = q.stdout, q.returncode
+            except subprocess.TimeoutExpired:
+                o, rc = "", "timeout"
     return res
 
 
